@@ -32,6 +32,9 @@ pub struct DiscoverInput {
     /// the workspace's configuration and must have no effect)
     #[serde(default)]
     pub ancestor_config: Option<String>,
+    /// the root conftest.py imports a module name that only exists ABOVE the workspace root (in the second location)
+    #[serde(default)]
+    pub ancestor_decoy: bool,
     pub sim: SimParams,
     pub run_seed: u64,
     #[serde(default)]
@@ -259,7 +262,8 @@ impl Scenario for Discover {
         } else {
             None
         };
-        serde_json::to_value(DiscoverInput { spec, locations, excludes, faults, adversary, ancestor_config, sim, run_seed, sandbox: None }).unwrap()
+        let ancestor_decoy = !self.faults && rng.chance(250);
+        serde_json::to_value(DiscoverInput { spec, locations, excludes, faults, adversary, ancestor_config, ancestor_decoy, sim, run_seed, sandbox: None }).unwrap()
     }
 
     fn exec(&self, input: &Value) -> RunOut {
@@ -292,6 +296,20 @@ impl Scenario for Discover {
             spec.ancestors = loc.iter().filter(|a| !a.starts_with('=')).cloned().collect();
             spec.root_name = loc.iter().find(|a| a.starts_with('=')).map(|a| a[1..].to_string());
             let root = spec.materialise(&sb.root());
+            if inp.ancestor_decoy && !self.faults {
+                // `from decoy_helper import *` in the root conftest: nothing under the root provides it
+                let cp = root.join("conftest.py");
+                let cur = std::fs::read_to_string(&cp).unwrap_or_else(|_| "import pytest\n".to_string());
+                let _ = std::fs::write(&cp, format!("from decoy_helper import *\n{}", cur));
+                if results.len() >= 1 {
+                    if let Some(parent) = root.parent() {
+                        if parent != sb.root() {
+                            let _ = std::fs::write(parent.join("decoy_helper.py"), "import pytest\n\n@pytest.fixture\ndef decoy_fx():\n    return 1\n");
+                            out.count("fault.same_named_module_above_the_root", 1);
+                        }
+                    }
+                }
+            }
             if let (Some(cfg), true) = (&inp.ancestor_config, results.len() >= 1 && !self.faults) {
                 if let Some(parent) = root.parent() {
                     if parent != sb.root() {
@@ -369,7 +387,11 @@ impl Scenario for Discover {
                 if files != files0 {
                     let ancestor_ignored = loc.iter().any(|a| !a.starts_with('=') && is_ignored_dir(a));
                     let root_ignored = loc.iter().any(|a| a.starts_with('=') && is_ignored_dir(&a[1..]));
-                    let class = if root_ignored && files.len() < files0.len() {
+                    // the only difference is a module found ABOVE the root by walking up from an absolute import
+                    let above_only = files0.iter().all(|f| files.contains(f)) && files.difference(files0).all(|f| f.starts_with("../") && !f.starts_with("../extsrc/"));
+                    let class = if above_only && inp.ancestor_decoy {
+                        "RC-IMPORT-CLIMBS-ABOVE-ROOT"
+                    } else if root_ignored && files.len() < files0.len() {
                         "RC-ROOT-NAMED-LIKE-IGNORED"
                     } else if ancestor_ignored && files.len() < files0.len() {
                         "RC-ANCESTOR-SKIP"
